@@ -160,26 +160,31 @@ def run(ctx):
     # ---------------------------------------------------------------- C14.4
     from .c13 import build_taint
     T, _src = build_taint(P)
-    cc = P.fn('rip_workspace::Workspace::create_checkpoint')
-    ctx.touch(cc)
+    from .common import workspace_helpers_of
+    P.fn('rip_workspace::Workspace::create_checkpoint')
     n = 0
-    probe_roots = []
-    for s in cc.calls(r'^std::path::Path::(exists|is_file)$|^std::fs::(read|metadata)$'):
-        n += 1
-        raw = T.tainted(cc, s.args[0], s.bb)
-        probe_roots.append({l for l in reads_locals(cc, s.args[0]) if cc.locals[l].get('n')})
-        ctx.ob('C14.4', cc, 'one-base:' + s.name, not raw, '%s operand %s' % (s.name, 'derives from resolved (root-relative) values only' if not raw else
-                                                                           'is the RAW caller path: a relative path is tested / read against the process working directory while the copy is stored under the root-relative name'), line=s.line)
+    # create_checkpoint and the private helpers it delegates to ("snapshot one file"): the sites are judged in the
+    # function they sit in (the taint is interprocedural, so a helper's parameter carries what its callers pass)
+    for ccp in workspace_helpers_of(P, 'rip_workspace::Workspace::create_checkpoint'):
+        cc = P.fns[ccp]
+        probe_roots = []
+        for s in cc.calls(r'^std::path::Path::(exists|is_file)$|^std::fs::(read|metadata)$'):
+            ctx.touch(cc)
+            n += 1
+            raw = T.tainted(cc, s.args[0], s.bb)
+            probe_roots.append({l for l in reads_locals(cc, s.args[0]) if cc.locals[l].get('n')})
+            ctx.ob('C14.4', cc, 'one-base:' + s.name, not raw, '%s operand %s' % (s.name, 'derives from resolved (root-relative) values only' if not raw else
+                                                                               'is the RAW caller path: a relative path is tested / read against the process working directory while the copy is stored under the root-relative name'), line=s.line)
+        for (bi, si, st) in cc.aggregates(r'^rip_workspace::CheckpointFile$'):
+            rv = st['rv']
+            op = rv['a'][rv['fields'].index('path')]
+            raw = T.tainted(cc, op, bi)
+            stored = {l for l in reads_locals(cc, op) if cc.locals[l].get('n')}
+            common = any(stored & pr for pr in probe_roots)
+            ctx.ob('C14.4', cc, 'stored-path-relative', not raw and common,
+                   'CheckpointFile.path %s' % ('is the resolved relative path and shares its origin (%s) with the path that was tested / read' % sorted(cc.lname(l) for l in stored)[:3] if not raw and common else
+                                               'is not the resolved path that was tested / read'), line=st.get('ln'))
     ctx.floor('C14.4', 'existence / read sites in create_checkpoint', n, 2)
-    for (bi, si, st) in cc.aggregates(r'^rip_workspace::CheckpointFile$'):
-        rv = st['rv']
-        op = rv['a'][rv['fields'].index('path')]
-        raw = T.tainted(cc, op, bi)
-        stored = {l for l in reads_locals(cc, op) if cc.locals[l].get('n')}
-        common = any(stored & pr for pr in probe_roots)
-        ctx.ob('C14.4', cc, 'stored-path-relative', not raw and common,
-               'CheckpointFile.path %s' % ('is the resolved relative path and shares its origin (%s) with the path that was tested / read' % sorted(cc.lname(l) for l in stored)[:3] if not raw and common else
-                                           'is not the resolved path that was tested / read'), line=st.get('ln'))
 
     # ---------------------------------------------------------------- C14.5
     ctx.rule('C14.5', 'snapshots are never aliased: nothing in rip_workspace (nor the checkpoint glue in ripd / rip_tools) creates a hard link or symlink — a restored file that shares an inode with the stored snapshot lets the next in-place edit of the workspace file rewrite the checkpoint, so a second rewind no longer restores the checkpointed bytes.')
@@ -264,7 +269,14 @@ def run(ctx):
     n8 = 0
     for r8 in roots8:
         P.fn(r8)
-        for g in P.family(r8):
+    fams8 = []
+    for r8 in roots8:
+        for hp8 in (workspace_helpers_of(P, r8) if r8.startswith('rip_workspace::') else [r8]):
+            for g in P.family(hp8):
+                if g not in fams8:
+                    fams8.append(g)
+    for _once in (1,):
+        for g in fams8:
             ctx.touch(g)
             rw_dests = {s_.dest['l']: s_ for s_ in g.sites() if s_.callee and s_.dest and rewrites(s_.callee)}
             makes = [(s_, list(s_.args)) for s_ in g.calls(PATHMAKE)]
